@@ -141,7 +141,20 @@ def check_loop_commutative(run, f, it_local, key, loc):
         if not _call_ok_in_loop(run, f, t, set()):
             return False, "loop over a hash container calls `%s` (line %d): not a pure function or an insertion into another hash container, so the iteration order can be observed" % (
                 t.get("resolved") or t.get("callee") or "indirect", t["span"]["line"])
-    return True, "loop body is commutative: only pure calls and insertions into hash containers, no early exit"
+    # insertions into a map commute only when no two iterations can produce the same key: the key is ONE expression of the
+    # element (the element's own key, or one renaming of it) - a key chosen among several expressions (`if .. {k} else {f(k)}`)
+    # can make two entries collide, and then the survivor is whichever the hash order visits last
+    from rules_sym import deep as _deep
+    for b in loop:
+        t = f.blocks[b]["term"]
+        if t["k"] == "call" and b != nb and len(t["args"]) == 3 and re.match(r"^std::collections::HashMap::<.*::insert$", t.get("callee") or ""):
+            try:
+                kd = str(_deep(f, t["args"][1], 4))
+            except Exception:
+                kd = "var:?"
+            if kd.startswith("var:"):
+                return False, "loop over a hash container inserts into a map under a key chosen among several expressions (`%s`, line %d): two elements can end up under one key, and which of them survives depends on hash order" % (kd, t["span"]["line"])
+    return True, "loop body is commutative: only pure calls and insertions into hash containers (each under one expression of the element's key), no early exit"
 
 
 def follow_hash_iter(run, f, local, key, loc, depth=0):
